@@ -1,7 +1,8 @@
 From Coq Require Import Extraction ExtrOcamlBasic.
-From LCP Require Import Base.ExtractBase Base.CheckedMem Gen.Repo_parsenum Util.ParsenumSpec Util.Strto Util.Parsenum Util.Humansize Util.HumansizeSpec.
+From LCP Require Import Base.ExtractBase Base.CheckedMem Gen.Repo_parsenum Util.ParsenumSpec Util.Strto Util.ParsenumFloat Util.Parsenum Util.Humansize Util.HumansizeSpec.
 Extraction Language OCaml.
 Extraction "parsenum.ml" force_number_types
   strtoumax_m strtoimax_m parsenum_ex6 parsenum_ex4 presult_of
   parse_spec parse_spec_nobounds
+  mk_sd sd_class fstore narrow32 decode64 decode32 decode_w class_of fval_ltb in_type
   humansize_repo humansize_parse_repo hs_parse_spec hs_format_spec.
